@@ -12,4 +12,7 @@ INVARIANT SpectralOrder
 INVARIANT VarexpDescending
 INVARIANT VarexpNormalised
 INVARIANT BoundDefined
+INVARIANT LocSound
+INVARIANT SlicesCover
+INVARIANT MtShapeClasses
 CONSTRAINT Emit
